@@ -65,7 +65,7 @@ Definition set_cwd (v : view) (d : str) : view :=
   {| v_root := v_root v; v_cwd := d; v_user := v_user v; v_umask := v_umask v; v_os := v_os v; v_idm := v_idm v |}.
 
 (* a call on a view / handle index that does not exist is a harness error *)
-Definition RBadIndex : res := RErr EFuel.
+Definition RBadIndex : res := RFail EFuel.
 
 Definition on_view (w : world) (vi : nat) (k : view -> world * res) : world * res :=
   match nth_error (w_views w) vi with Some v => k v | None => (w, RBadIndex) end.
@@ -172,7 +172,8 @@ Fixpoint wrun (w : world) (cs : list call) : world * list res :=
 Definition root_user : user := {| us_uid := 0; us_gid := 0; us_admin := true |}.
 
 Definition init_view (os : ostype) (um : N) : view :=
-  {| v_root := 0; v_cwd := []; v_user := root_user; v_umask := 0; v_os := os; v_idm := true |}.
+  {| v_root := 0; v_cwd := match os with Linux => [47%N] | Windows => [67; 58; 92]%N end;
+     v_user := root_user; v_umask := 0; v_os := os; v_idm := true |}.
 
 Definition s2 (l : list N) : str := l.
 Definition P_home : str := [47;104;111;109;101]%N.        (* /home *)
@@ -189,7 +190,7 @@ Definition init_world_linux (um : N) : world :=
   let s2 := mk s1 P_root 448%N in
   let s3 := mk s2 P_tmp 511%N in
   {| w_fs := s3;
-     w_views := [{| v_root := 0; v_cwd := []; v_user := root_user; v_umask := um; v_os := Linux; v_idm := true |}];
+     w_views := [{| v_root := 0; v_cwd := [47%N]; v_user := root_user; v_umask := um; v_os := Linux; v_idm := true |}];
      w_handles := [] |}.
 
 (* ---- observable snapshot of the tree below a node ------------------------ *)
@@ -219,8 +220,48 @@ Fixpoint snap (fuel : nat) (os : ostype) (h : heap) (path : str) (i : nat) : lis
       end
   end.
 
+(* entries deeper than 10 levels are not listed: keeps the snapshot total on the cyclic graphs a
+   defective rename can produce; the harness applies the same cut *)
+Definition SNAP_DEPTH : nat := 11.
+
 Definition snapshot (w : world) (vi : nat) : list sentry :=
   match nth_error (w_views w) vi with
-  | Some v => snap (S (length (f_heap (w_fs w)))) (v_os v) (f_heap (w_fs w)) [sepc (v_os v)] (v_root v)
+  | Some v => snap SNAP_DEPTH (v_os v) (f_heap (w_fs w)) [sepc (v_os v)] (v_root v)
   | None => []
   end.
+
+(* ---- numeric value of an error, as the harness prints it ------------------ *)
+(* class: 0 = avfs.LinuxError, 1 = avfs.WindowsError, 2 = avfs.CustomError (offset from customErrorBase),
+   3 = Go-level sentinel (1 fs.ErrClosed, 2 fs.ErrInvalid, 3 io.EOF), 9 = model-only.
+   Mirrors avfs.Errors.SetOSType (errors.go:222) and the constants of errors.go. *)
+Local Open Scope N_scope.
+Definition ecode (os : ostype) (e : ekind) : N * N :=
+  let w := ostype_eqb os Windows in
+  let lw (l x : N) : N * N := if w then (1%N, x) else (0%N, l) in
+  match e with
+  | EBadFileDesc => lw 9%N 5%N
+  | EDirNotEmpty => lw 39 145
+  | EFileExists => lw 17 80
+  | EInvalidArgument => lw 22 131
+  | EIsADirectory => lw 21 21
+  | ENoSuchDir => lw 2 3
+  | ENoSuchFile => lw 2 2
+  | ENotADirectory => lw 20 3
+  | EOpNotPermitted => lw 1 536871042
+  | EPermDenied => lw 13 5
+  | ETooManySymlinks => (0, 40)
+  | EC_FileExists => (0, 17) | EC_OpNotPermitted => (0, 1) | EC_InvalidArgument => (0, 22)
+  | EC_NotADirectory => (0, 20) | EC_IsADirectory => (0, 21) | EC_BadFileDesc => (0, 9)
+  | EW_DirNameInvalid => (1, 267) | EW_AlreadyExists => (1, 183) | EW_AccessDenied => (1, 5)
+  | EW_NotReparsePoint => (1, 4390) | EW_IncorrectFunc => (1, 1) | EW_InvalidHandle => (1, 6)
+  | EW_NotSupported => (1, 536871042)
+  | EG_Closed => (3, 1) | EG_Invalid => (3, 2) | EG_EOF => (3, 3)
+  | EG_FileClosing => (2, 2) | EG_NegativeOffset => (2, 1)
+  | EFuel => (9, 0)
+  end%N.
+
+Local Close Scope N_scope.
+Definition view_os (w : world) (vi : nat) : ostype :=
+  match nth_error (w_views w) vi with Some v => v_os v | None => Linux end.
+Definition handle_view (w : world) (hi : nat) : nat :=
+  match nth_error (w_handles w) hi with Some f => hd_view f | None => 0 end.
